@@ -3,6 +3,7 @@ package harness
 import (
 	"context"
 	"fmt"
+	"math/big"
 	"sync"
 	"testing"
 
@@ -24,6 +25,7 @@ import (
 	"verifharness/choose"
 	"verifharness/ev"
 	"verifharness/grpcfake"
+	"verifharness/ref"
 )
 
 // Aggchain-prover (FEP) configuration of the aggsender: the real AggchainProverFlow (exported constructor) with the real
@@ -38,6 +40,7 @@ type modelProver struct {
 	requests []*proverv1.GenerateAggchainProofRequest
 	shorten  int // how many blocks to cut from the requested end block (clamped)
 	notYet   int // upcoming requests answered with "no proof built yet"
+	answers  int
 }
 
 func newModelProver() (*modelProver, error) {
@@ -61,7 +64,7 @@ func newModelProver() (*modelProver, error) {
 			AggchainProof: &interop.AggchainProof{
 				AggchainParams: &interop.FixedBytes32{Value: common.HexToHash("0xa99c4a1").Bytes()},
 				Context:        map[string][]byte{"k": {1}},
-				Proof:          &interop.AggchainProof_Sp1Stark{Sp1Stark: &interop.SP1StarkProof{Version: "v1", Proof: []byte{1, 2, 3}, Vkey: []byte{4}}},
+				Proof:          &interop.AggchainProof_Sp1Stark{Sp1Stark: &interop.SP1StarkProof{Version: "v1", Proof: p.nextProof(), Vkey: []byte{4}}},
 			},
 			LastProvenBlock:   r.GetLastProvenBlock(),
 			EndBlock:          end,
@@ -73,6 +76,18 @@ func newModelProver() (*modelProver, error) {
 		return nil, err
 	}
 	return p, nil
+}
+
+// nextProof: the proof bytes of the next answer - usually a few bytes, sometimes none at all (a mock or placeholder prover).
+func (p *modelProver) nextProof() []byte {
+	p.answers++
+	switch p.answers % 5 {
+	case 2:
+		return []byte{}
+	case 4:
+		return nil
+	}
+	return []byte{1, 2, byte(p.answers)}
 }
 
 type noGERs struct{}
@@ -232,7 +247,7 @@ func TestC10FEP(t *testing.T) {
 		nc := genNodeCfg(ch)
 		nc.RequireBridge = false
 		cfg := walkCfg{node: nc, steps: rapid.IntRange(8, 30).Draw(rt, "steps"), viaGRPC: true, rotate: rapid.Bool().Draw(rt, "keyRotations")}
-		r, _, err := fepWalk(ch, cfg)
+		r, prv, err := fepWalk(ch, cfg)
 		if err != nil {
 			fatal(rt, "INCONCLUSIVE: %v", err)
 		}
@@ -280,5 +295,54 @@ func TestC10FEP(t *testing.T) {
 		if v := r.m.firstViolation("C10"); v != nil {
 			rt.Fatalf("[FEP] %s\n  schedule: %s", v.Msg, r.key())
 		}
+		checkProverRequests(rt, r, prv, rec)
+	})
+}
+
+// checkProverRequests: the prover is asked to prove exactly the claims of the requested range: one entry per claim event,
+// in order, each with the event's global index (canonical encoding) - what the certificate built from the answer will carry.
+func checkProverRequests(rt *rapid.T, r *walkRes, prv *modelProver, rec *ev.Recorder) {
+	// the prover is asked to prove exactly the claims of the requested range: one entry per claim event, in order, each
+	// with the event's global index (canonical encoding) - what the certificate built from the answer will carry
+	prv.mu.Lock()
+	reqs := append([]*proverv1.GenerateAggchainProofRequest{}, prv.requests...)
+	prv.mu.Unlock()
+	for _, q := range reqs {
+		_, cls := r.w.eventsIn(q.GetLastProvenBlock()+1, q.GetRequestedEndBlock())
+		got := q.GetImportedBridgeExits()
+		if len(got) != len(cls) {
+			rt.Fatalf("[FEP] the prover request for blocks (%d,%d] carries %d imported bridge exits, the range has %d claim events\n  schedule: %s", q.GetLastProvenBlock(), q.GetRequestedEndBlock(), len(got), len(cls), r.key())
+		}
+		for k, c := range cls {
+			f, ru, l := ref.SplitGlobalIndex(c.GlobalIndex)
+			want := ref.GlobalIndex(f, ru, l)
+			if gi := new(big.Int).SetBytes(got[k].GetGlobalIndex().GetValue()); gi.Cmp(want) != 0 {
+				rt.Fatalf("[FEP] the prover request for blocks (%d,%d]: entry %d carries global index 0x%x, the %d-th claim event of the range has 0x%x\n  schedule: %s", q.GetLastProvenBlock(), q.GetRequestedEndBlock(), k, gi, k+1, want, r.key())
+			}
+		}
+		rec.Class("fep_prover_requests_compared_with_the_claims_of_their_range")
+	}
+}
+
+// TestC19FEP: the prover request as a carrier of the claims' global indexes, through the real aggchain-prover flow (the
+// walks of the FEP configuration; rollup index 0 is a foreign rollup in these worlds).
+func TestC19FEP(t *testing.T) {
+	rec := ev.For("C19", c19Rule)
+	rapid.Check(t, func(rt *rapid.T) {
+		if rapid.IntRange(0, 19).Draw(rt, "runFEPWalk") != 0 {
+			return // walks are expensive next to the triple checks: 1 in 20 of the budget
+		}
+		ch := choose.Rapid{T: rt}
+		nc := genNodeCfg(ch)
+		nc.RequireBridge = false
+		cfg := walkCfg{node: nc, steps: rapid.IntRange(8, 30).Draw(rt, "steps"), weights: []int{0, 0, 0, 0, 0, 1, 1, 2, 4, 4, 5, 7}}
+		r, prv, err := fepWalk(ch, cfg)
+		if err != nil {
+			fatal(rt, "INCONCLUSIVE: %v", err)
+		}
+		defer r.cleanup()
+		r.drain()
+		checkProverRequests(rt, r, prv, rec)
+		rec.Class("fep_walks_for_the_prover_request_carrier")
 	})
 }
